@@ -248,7 +248,11 @@ class PTA:
     def clone_obj(self, node: ast.AST, o: Obj) -> Obj:
         while o.is_clone:
             o = o.extra[1]
-        key = ('cl', self._cur.module.name, id(node), o.uid)
+        # opaque external structure (unknown objects and their lazily materialised fields / method results) is
+        # copied into ONE abstract copy per deepcopy site: copies of copies of unknown things would otherwise
+        # breed new unknown things without bound
+        opaque = o.kind in ('field', 'ext', 'param', 'extmeth', 'arith')
+        key = ('cl', self._cur.module.name, id(node), 'opaque' if opaque else o.uid)
         got = self._objs.get(key)
         if got is not None:
             return got
@@ -295,7 +299,8 @@ class PTA:
             return so
         while so.is_clone:
             so = so.extra[1]            # a clone of a clone is a clone of the original
-        key = ('cl', clone.extra[2], clone.extra[3], so.uid)
+        opaque = so.kind in ('field', 'ext', 'param', 'arith')
+        key = ('cl', clone.extra[2], clone.extra[3], 'opaque' if opaque else so.uid)
         got = self._objs.get(key)
         if got is not None:
             return got
@@ -408,6 +413,9 @@ class PTA:
                 print(f'[pta] pass {self.passes}: {len(self.pts)} vars, {len(self._objs)} objs', flush=True)
             if not self.changed:
                 break
+            if len(self._objs) > 60000:
+                raise AnalysisError(f'points-to analysis is not converging ({len(self._objs)} abstract objects '
+                                    f'after {self.passes} passes): unknown external structure is breeding objects')
         self._rebuild_field_index()
 
     def _rebuild_field_index(self):
